@@ -289,10 +289,21 @@ func sameExpr(a, b ssa.Value) bool {
 // of findMinCluster calls (each seeded with the previous result, the first with a constant), and the (slice, start, end)
 // triples of the chain are the triples of all the infosSetGlyphFlags calls that consume that value.
 func ruleMinCluster(p *Prog, r *Report) {
-	const rule = "R-MINCL"
-	f := p.Func("harfbuzz", "Buffer", "setGlyphFlags")
 	setF := p.Func("harfbuzz", "Buffer", "infosSetGlyphFlags")
 	minF := p.Func("harfbuzz", "Buffer", "findMinCluster")
+	n := 0
+	// every function of the package that flags ranges in interior mode (setGlyphFlags, or the pieces it is split into)
+	for _, f := range p.ModFns() {
+		if fnPkg(f) == nil || fnPkg(f).Path() != p.pkgPath("harfbuzz") || f == setF {
+			continue
+		}
+		n += ruleMinClusterIn(p, r, f, setF, minF)
+	}
+	r.Floor("R-MINCL", n, 2)
+}
+
+func ruleMinClusterIn(p *Prog, r *Report, f, setF, minF *ssa.Function) int {
+	const rule = "R-MINCL"
 	type triple struct{ s, a, b ssa.Value }
 	users := map[ssa.Value][]triple{}
 	var order []ssa.Value
@@ -365,5 +376,5 @@ func ruleMinCluster(p *Prog, r *Report) {
 		}
 		r.Check(okChain, rule, key, p.IPos(sites[cl]), "the cluster exempted from the flag is the minimum (findMinCluster chain) over exactly the ranges that are flagged"+pref(why))
 	}
-	r.Floor(rule, n, 2)
+	return n
 }
